@@ -21,5 +21,5 @@ META = {
 
 def main(argv):
     c = vcheck.Check("C07", argv)
-    mirrorlib.mirror_check(c, "C07", ["c07", "c06"], "C07 validator sets", templates=[8])  # c06: the available power every view counts against is that of its own set
+    mirrorlib.mirror_check(c, "C07", ["c07", "c06"], "C07 validator sets", extra=["-crashes"], templates=[8])  # c06: the available power every view counts against is that of its own set
     c.finish()
